@@ -479,6 +479,7 @@ def shipped_states(run: Run, kinds):
     import copy
     import torch
     from harness import synth
+    from leaspy.exceptions import LeaspyInputError
     from leaspy.variables.state import State, StateForkType
     from leaspy.variables.specs import IndividualLatentVariable, PopulationLatentVariable
     for kind, kw in kinds:
@@ -526,9 +527,72 @@ def shipped_states(run: Run, kinds):
         st.auto_fork_type = StateForkType.REF
         hist = []
         n_ok = 0
-        for step in range(14):
+        non_settable = [n for n in names if not dag[n].is_settable and st0.is_variable_set(n)]
+        from leaspy.models.time_reparametrized import TimeReparametrizedModel
+        callsite_ok = (isinstance(model, TimeReparametrizedModel)
+                       and type(model).put_individual_parameters is TimeReparametrizedModel.put_individual_parameters
+                       and {"xi", "tau"} <= set(ind_vars))
+
+        class _NoIndividuals:            # a dataset that makes the body of the block raise: n_individuals is required
+            n_individuals = None
+
+        def revert(subset=None, what=""):
+            """a sampler's decision after a proposal made with auto-fork on: must not be refused"""
+            try:
+                st.revert(subset) if subset is not None else st.revert()
+            except LeaspyInputError as e:
+                run.fail(SCOPE_DIFF_SIG + ":revert-refused:shipped", f"{kind}: the revert of a proposal made on a model state whose auto-fork is on "
+                         f"(as far as the caller can tell) is refused: {str(e)[:120]}",
+                         dict(kind=kind, options=kw, history=hist + [what]), expected="revert accepted (the proposal was forked)",
+                         observed=f"LeaspyInputError; auto_fork_type={st.auto_fork_type}")
+                return False
+            hist.append(what)
+            return True
+
+        def failed_block(how):
+            """an exception raised inside `with state.auto_fork(None)` and caught outside: through the context manager directly
+            (the body makes an un-forked assignment, then assigns a non-settable variable), or at the real call site
+            time_reparametrized.py:447 (`put_individual_parameters`: the body raises because n_individuals is None)"""
+            before = st.auto_fork_type
+            raised = False
+            try:
+                if how == "direct":
+                    with st.auto_fork(None):
+                        v = rng.choice(ind_vars)
+                        st.put(v, torch.full_like(st[v], 0.25), accumulate=True)
+                        n = rng.choice(non_settable)
+                        st[n] = st[n]
+                else:
+                    st["xi"] = None      # (forked) so that the call site enters its block
+                    model.put_individual_parameters(st, _NoIndividuals())
+            except LeaspyInputError:
+                raised = True
+            hist.append(f"exception inside `with auto_fork(None)` ({how}), caught")
+            run.count("shipped", f"exception inside a `with state.auto_fork(None)` block: {how}" + ("" if raised else " (did NOT raise)"))
+            if not raised:
+                run.broken("shipped-states-oracle:failed-block", f"{kind}: the block ({how}) was expected to raise LeaspyInputError", kind="broken-correspondence")
+            if st.auto_fork_type is not before:
+                run.fail(SCOPE_SIG + ":shipped", f"{kind}: after an exception left `with state.auto_fork(None)` ({how}) and was caught, the model state "
+                         "does not have its previous auto_fork_type again",
+                         dict(kind=kind, options=kw, history=list(hist)), expected=str(before), observed=str(st.auto_fork_type))
+            if how != "direct":
+                return revert(what="revert()  # xi back")
+            return True
+
+        alive = True
+        for step in range(16):
+            if step in (4, 10) and ind_vars and non_settable:
+                how = "direct" if (step == 4 or not callsite_ok) else "call site put_individual_parameters"
+                alive = failed_block(how)
+                run.case(("shipped", kind, json.dumps(kw, sort_keys=True), step, "failed-block"), nontrivial=True, validated=False)
+                if not alive or not compare(st, step, hist):
+                    break
+                # what a sampler does next: proposal, reads, decision
+                force = True
+            else:
+                force = False
             r = rng.random()
-            if r < 0.45 and ind_vars:
+            if (force or r < 0.45) and ind_vars:
                 v = rng.choice(ind_vars)
                 delta = torch.tensor([[rng.choice([-0.5, 0.25, 1.0])] * st[v].shape[1] for _ in range(st[v].shape[0])], dtype=st[v].dtype)
                 st.put(v, delta, accumulate=True)
@@ -536,10 +600,9 @@ def shipped_states(run: Run, kinds):
                 for n in rng.sample([m for m in names if m.endswith("_ind") or m in ("rt", "model", "nll_attach_ind")] or names, 2):
                     if n in dag:
                         st[n]
-                if rng.random() < 0.5:
+                if force or rng.random() < 0.5:
                     mask = torch.tensor([rng.random() < 0.5 for _ in range(st[v].shape[0])])
-                    st.revert(mask)
-                    hist.append(f"revert({[int(x) for x in mask.tolist()]})")
+                    alive = revert(mask, f"revert({[int(x) for x in mask.tolist()]})")
             elif r < 0.8 and pop_vars:
                 v = rng.choice(pop_vars)
                 cur = st[v]
@@ -548,8 +611,7 @@ def shipped_states(run: Run, kinds):
                 hist.append(f"put({v}, idx={idx})")
                 st[rng.choice(names)]
                 if rng.random() < 0.5:
-                    st.revert()
-                    hist.append("revert()")
+                    alive = revert(what="revert()")
             else:
                 n = rng.choice(names)
                 try:
@@ -558,7 +620,11 @@ def shipped_states(run: Run, kinds):
                     pass
                 hist.append(f"get({n})")
             run.case(("shipped", kind, json.dumps(kw, sort_keys=True), step), nontrivial=True, validated=False)
-            if not compare(st, step, hist):
+            if not alive or not compare(st, step, hist):
+                break
+            if st.auto_fork_type is not StateForkType.REF:
+                run.fail(SCOPE_SIG + ":shipped", f"{kind}: the model state is no longer in auto-fork mode REF after {hist[-1]}",
+                         dict(kind=kind, options=kw, history=list(hist)), expected="StateForkType.REF", observed=str(st.auto_fork_type))
                 break
             n_ok += 1
         run.count("shipped", f"{kind}{kw or ''}: {n_ok} operations checked on a {len(names)}-node graph")
